@@ -34,7 +34,7 @@ def cost : Expr → Nat
 def okA : List Tok → Bool
   | [] => true
   | t :: _ => t == .eqeq || t == .neq || t == .le || t == .lt || t == .comma || t == .rp || t == .amp ||
-      t == .bar || t == .arrow || t == .kthen || t == .kelse
+      t == .bar || t == .arrow || t == .kthen || t == .kelse || t == .semi || t == .rbrace || t == .rbrack
 
 theorem evalE_normNeg (s : State) : ∀ e, evalE s (normNeg e) = evalE s e := by
   intro e
@@ -65,7 +65,7 @@ theorem fnOf_str (f : Fn) : fnOf f.str = some f := by cases f <;> rfl
 
 /-- tokens that may follow a condition parsed at level `j` (0 imp, 1 disj, 2 conj, 3 neg, 4 atom) -/
 def stopC (j : Nat) (t : Tok) : Bool :=
-  t == .rp || t == .kthen || t == .kelse || (decide (1 ≤ j) && t == .arrow) ||
+  t == .rp || t == .kthen || t == .kelse || t == .rbrack || (decide (1 ≤ j) && t == .arrow) ||
   (decide (2 ≤ j) && t == .bar) || (decide (3 ≤ j) && t == .amp)
 
 def okC (j : Nat) : List Tok → Bool
